@@ -453,6 +453,46 @@ func (c09) Eval(c *Chooser, env *Env) *Outcome {
 				return o
 			}
 		}
+		// a job of the group that no other job of the group mentions (by needs:, needs.<id> or a duplicate
+		// id) can be taken away: the jobs that stay keep their diagnostics
+		if len(mine) >= 2 && c.Weighted("world.leafdrop", 1, 3) {
+			li := c.Int("world.leaf", len(mine))
+			leaf := true
+			for k, blk := range mine {
+				if k != li && strings.Contains(strings.ToLower(blk.text), strings.ToLower(mine[li].id)) {
+					leaf = false
+				}
+			}
+			if leaf {
+				o.probe("leaf_job_dropped", 1)
+				var rest []c09Block
+				var restIdx []int
+				for k, blk := range mine {
+					if k != li {
+						rest = append(rest, blk)
+						restIdx = append(restIdx, k)
+					}
+				}
+				ref2 := lintAlone(o, header, rest, g.assets, cfg)
+				if ref2.failed != nil {
+					o.V = ref2.failed
+					o.V.Message = "while linting group " + g.name + " without one job: " + o.V.Message
+					return o
+				}
+				if ref2.fatal == "" {
+					scratch := map[string]int{}
+					for k2, k := range restIdx {
+						without := splitDefects(ref2.perBlock[k2], scratch)
+						if !relEqual(without, refBlocks[k]) {
+							o.V = &Violation{Oracle: "job-independence", Class: "job-drop-diff:" + diffKinds(without, refBlocks[k]),
+								Message: fmt.Sprintf("job %q (group %s) gets different diagnostics when job %q, which it does not need or mention, is taken out of the workflow.\n  with it:\n%s  without it:\n%s", mine[k].id, g.name, mine[li].id, relString(refBlocks[k]), relString(without)),
+								Detail:  map[string]any{"composed_workflow": text, "dropped_job": mine[li].id}}
+							return o
+						}
+					}
+				}
+			}
+		}
 		if !strings.Contains(header, "jobs.") && gi == 0 {
 			if !relEqual(gotHeader, ref.header) {
 				o.V = &Violation{Oracle: "header-independence", Class: "header-diff:" + diffKinds(gotHeader, ref.header),
